@@ -1,7 +1,7 @@
 """C08 -- binding / cache-flag protocol of time zones, processors and the manager cache (ghost binding state)."""
 import z3
 from .reg import contract, lemma, bv32, sx, zx, byte, LemmaOb, valid_ptr
-from vc.symex import Ptr, BV, Contract
+from vc.symex import Ptr, BV, Contract, LoopSpec
 from . import timezone as tzc
 from . import reg as _reg
 from .timezone import tz_fields, bound_to_own_zone, K_MANUAL, K_BASIC, K_EXT, K_BASIC_M, K_EXT_M
@@ -72,8 +72,16 @@ def _pool_ri(c, P):
     return [('pool-representation-invariant', xt.RI(xt.pool(c.new, st)))]
 
 
+def _count_ri(c, P):
+    """basic processor: at most kMaxCacheEntries (5) cached transitions -- addTransition(), the only function that increments the
+    count, returns early at 5 (its contract below is proved)"""
+    if P != 'ace_time::BasicZoneProcessor':
+        return []
+    return [('cache-count-within-kMaxCacheEntries', z3.ULE(pf(c.new, c.ghost['processor'], P)['count'], 5))]
+
+
 def _summary(name, P):
-    contract(name, extern=False, props=[], ensures=lambda c, P=P: _pool_ri(c, P), assigns=lambda c, P=P: _cache_region(c, P),
+    contract(name, extern=False, props=[], ensures=lambda c, P=P: _pool_ri(c, P) + _count_ri(c, P), assigns=lambda c, P=P: _cache_region(c, P),
              note='ASSUMED summary of the fill pipeline (determinism and correctness of its result are checked by the bounded stand-ins of C01/C02/C08): writes only the cache arrays of the processor')
     # the static pipeline functions have no `this`: the processor they work for is ghost state set by init()'s contract
     _reg.REG[name].call_site_reads = ('ghost',)
@@ -98,14 +106,18 @@ def _init_pre(c, P):
     d = PROCS[P]
     zi = o['zi']
     # the zone info and its context are valid objects distinct from the processor (flash tables)
-    return [z3.ULE(o['filled'], 1), zi != 0]
+    return [z3.ULE(o['filled'], 1), zi != 0] + ([z3.ULE(o['count'], 5)] if P == B else [])
+
+
+def _key_of_fields(P, yt, m, d):
+    if P == B:
+        return z3.If(z3.And(m == 1, d == 1), yt - 1, yt)
+    return z3.Extract(15, 0, sx(yt) + 2000)
 
 
 def _year_key(c, P):
     yt, m, d = (c.old.field(c.args[1], 'ace_time::LocalDate', n) for n in ('mYearTiny', 'mMonth', 'mDay'))
-    if P == B:
-        return z3.If(z3.And(m == 1, d == 1), yt - 1, yt)
-    return z3.Extract(15, 0, sx(yt) + 2000)
+    return _key_of_fields(P, yt, m, d)
 
 
 def _init_post(c, P):
@@ -117,13 +129,85 @@ def _init_post(c, P):
             ('failure-leaves-the-cache-invalid', z3.Implies(r == 0, n['filled'] == 0)),
             ('cache-hit-changes-nothing', z3.Implies(hit, z3.And(r == 1, n['key'] == o['key'], n['filled'] == o['filled'], n['count'] == o['count']))),
             ('binding-untouched', n['zi'] == o['zi']),
-            ('flag-is-a-bool', z3.ULE(n['filled'], 1))]
+            ('flag-is-a-bool', z3.ULE(n['filled'], 1))] + ([('cache-count-within-kMaxCacheEntries', z3.ULE(n['count'], 5))] if P == B else [])
+
+
+# ---- the entry points that take an instant: the answer comes from the cache only after the cache has been (re)built for the year of
+# ---- THAT instant, whatever the processor was asked before (history independence of the cache key) --------------------------------
+def _date_of(s, yt, m, d):
+    """(yt, m, d) is the date LocalDate::forEpochSeconds(s) returns (its contract, C06)"""
+    from .calendar import ld_is_error, valid_fields, dfc_fields, floor_div_86400
+    ok = s != bv32(-(1 << 31))
+    return z3.And(z3.Implies(z3.Not(ok), ld_is_error(yt, m, d)), z3.Implies(ok, valid_fields(yt, m, d)),
+                  z3.Implies(ok, dfc_fields(yt, m, d) == floor_div_86400(s)))
+
+
+def _keyed_for_the_instant(c, P, s):
+    n = pf(c.new, c.this, P)
+    st = c.state
+    if c.own and st is not None and st.frames and st.frames[-1].fn is c.fn and 'ld' in st.frames[-1].allocas:
+        # own exit: the existential below is shown with its witness, the local LocalDate the function computed from the instant
+        ld = st.frames[-1].allocas['ld']
+        yt, m, d = (c.ex._load_at(st.bytes[ld.id], ld, o, 1, False, st) for o in (0, 1, 2))
+        return z3.And(_date_of(s, yt, m, d), n['filled'] == 1, n['key'] == _key_of_fields(P, yt, m, d))
+    yt, m, d = z3.BitVec('q_yt', 8), z3.BitVec('q_m', 8), z3.BitVec('q_d', 8)
+    return z3.Exists([yt, m, d], z3.And(_date_of(s, yt, m, d), n['filled'] == 1, n['key'] == _key_of_fields(P, yt, m, d)))
+
+
+def _get_transition_post(c):
+    o, n = pf(c.old, c.this, B), pf(c.new, c.this, B)
+    r = c.ex.ptr_to_bv(c.result)
+    return [('an-answer-only-from-the-cache-built-for-the-year-of-that-instant', z3.Implies(r != 0, _keyed_for_the_instant(c, B, c.args[1]))),
+            ('binding-untouched', n['zi'] == o['zi']),
+            ('cache-count-within-kMaxCacheEntries', z3.ULE(n['count'], 5))]
+
+
+def _init_instant_post(c):
+    o, n = pf(c.old, c.this, E), pf(c.new, c.this, E)
+    return [('true-only-with-the-cache-built-for-the-year-of-that-instant', z3.Implies(c.result == 1, _keyed_for_the_instant(c, E, c.args[1]))),
+            ('failure-leaves-the-cache-invalid', z3.Implies(c.result == 0, n['filled'] == 0)),
+            ('binding-untouched', n['zi'] == o['zi'])]
 
 
 for P in (B, E):
     contract(P + '::init(ace_time::LocalDate const&) const', props=['C08'], requires=lambda c, P=P: _init_pre(c, P),
              ensures=lambda c, P=P: _init_post(c, P),
              assigns=lambda c, P=P: [c.field_addr(c.this, P, PROCS[P]['key']), c.field_addr(c.this, P, PROCS[P]['filled'])] + _cache_region(c, P))
+
+contract(B + '::getTransition(int) const', props=['C02', 'C08'], requires=lambda c: _init_pre(c, B), ensures=_get_transition_post,
+         assigns=lambda c: [c.field_addr(c.this, B, PROCS[B]['key']), c.field_addr(c.this, B, PROCS[B]['filled'])] + _cache_region(c, B))
+contract(E + '::init(int) const', props=['C01', 'C08'], requires=lambda c: _init_pre(c, E), ensures=_init_instant_post,
+         assigns=lambda c: [c.field_addr(c.this, E, PROCS[E]['key']), c.field_addr(c.this, E, PROCS[E]['filled'])] + _cache_region(c, E))
+
+# ---- addTransition: the only function that increments the basic processor's transition count keeps it within the cache array ----
+def _add_tr_region(c):
+    a, n = c.field_addr(c.this, B, 'mTransitions')
+    b, m = c.field_addr(c.this, B, 'mNumTransitions')
+    return [(a, n), (b, m)]
+
+
+def _add_tr_post(c):
+    o, n = pf(c.old, c.this, B), pf(c.new, c.this, B)
+    return [('count-stays-within-kMaxCacheEntries', z3.ULE(n['count'], 5)),
+            ('full-cache-drops-the-transition', z3.Implies(o['count'] == 5, n['count'] == 5)),
+            ('otherwise-one-more', z3.Implies(z3.ULT(o['count'], 5), n['count'] == o['count'] + 1))]
+
+
+def _add_tr_inv(L):
+    # the insertion sort permutes the entries below the (already incremented) count and never touches the count
+    c = L.c
+    o = pf(c.old, c.this, B)['count']
+    n = L.mem.field(c.this, B, 'mNumTransitions')
+    return [('count-is-one-more-than-at-entry', z3.And(z3.ULT(o, 5), n == o + 1)),
+            ('index-below-count', z3.ULT(L.var('i'), n))]
+
+
+contract(B + '::addTransition(signed char, unsigned char, ace_time::basic::ZoneEraBroker, ace_time::basic::ZoneRuleBroker) const', props=['C08', 'C09'],
+         lang_requires=lambda c: [valid_ptr(c.ex, c.args[3], 24), z3.Implies(c.ex.ptr_to_bv(c.args[4]) != 0, valid_ptr(c.ex, c.args[4], 9)),
+                                  valid_ptr(c.ex, c.this, c.mod.size_of(c.mod.types['class.ace_time::BasicZoneProcessor']))],
+         requires=lambda c: [z3.ULE(pf(c.old, c.this, B)['count'], 5), c.ex.ptr_to_bv(c.args[3]) != 0],
+         ensures=_add_tr_post, assigns=_add_tr_region,
+         loops={0: LoopSpec(_add_tr_inv, variant=lambda L: zx(L.var('i')))})
 
 # ---- the manager's processor cache (SIZE = 1..4 instantiations, as in the property) ------------------------
 CACHES = {}
